@@ -219,12 +219,13 @@ def analyse_dimap(obs: Obs, prog):
     obs.add({"C15", "C08"}, "TAG-PAIRING", "Dimap.edit/post", okrd, derived=rd, expected="incremental(closed_mapping)(None, (primals, primal(inner retdiff)), (tangents, tangent(inner retdiff))) - primal/tangent of the same trees in the same order", where=w)
     if okrd:
         cm = rd[1][2][0]
-        if ev.closure_of(cm) is not None:
+        if ev.closure_of(cm) is not None or (is_t(cm, "attr") and cm[1] == P("self") and cm[2] in D.methods):
+            # a local closure or a method of the combinator: applied to symbolic (args, retval) either way
             rr = ev.apply(cm, [P("$a"), P("$r")], module=D.module, cls=D)
             okc = rr == ("call", POST, (P("$a"), ("call", PRE, (("star", P("$a")),), ()), P("$r")), ())
             obs.add({"C15", "C08", "C01", "C05"}, "DELEG-ROLE", "Dimap.edit/closed_mapping", okc, derived=rr, expected="post(args, pre(*args), retval) - pre recomputed on the NEW primals", where=w)
         else:
-            obs.add({"C15", "C08", "C01", "C05"}, "DELEG-ROLE", "Dimap.edit/closed_mapping", False, derived=cm, expected="a local closure", where=w)
+            obs.add({"C15", "C08", "C01", "C05"}, "DELEG-ROLE", "Dimap.edit/closed_mapping", False, derived=cm, expected="a local closure or a method of Dimap", where=w)
     obs.add({"C15", "C01", "C05"}, "TRACE-ARGS", "Dimap.edit", f.get("args") == pr, derived=f.get("args"), expected="Diff.tree_primal(argdiffs)", where=w)
     obs.add({"C15", "C01"}, "TRACE-RETVAL", "Dimap.edit/retval", f.get("retval") == dcall("tree_primal", rd), derived=f.get("retval"), expected="primal of the returned retdiff", where=w)
     obs.add({"C15", "C05"}, "WEIGHT-UPD", "Dimap.edit/weight", q[1] == mk_proj(E, 1) and f.get("inner") == mk_proj(E, 0), derived=q[1], expected="inner weight; inner trace", where=w)
